@@ -136,6 +136,19 @@ def py_issue(w, cfg, op, call):
                 arr = arr.reshape(-1)
             elif form == "onedim" and cfg["nsub"] == 1 and arr.ndim == 2 and arr.shape[1] == 1:
                 arr = arr.reshape(-1)
+            elif form in ("cplxnd", "cplxnd-other") and cfg["cplx"] and cfg["kind"] == "f":
+                # documented: "a complex array" is accepted by every complex writer, whichever way its element type was
+                # declared (complex dtype, ('r','i') dtype, real dtype + is_complex) and in either byte order; the
+                # conversions below only re-order bytes, so the stored bits are still the generated ones
+                nat = np.dtype("=f%d" % cfg["size"])
+                if arr.dtype.names is not None:
+                    arr = np.ascontiguousarray(arr.astype([("r", nat), ("i", nat)])).view(np.dtype("=c%d" % (2 * cfg["size"])))
+                elif arr.dtype.kind == "f":
+                    arr = np.ascontiguousarray(arr.astype(nat)).view(np.dtype("=c%d" % (2 * cfg["size"])))
+                if (form == "cplxnd-other") == (arr.dtype.byteorder in ("=", "<")):
+                    arr = arr.astype(arr.dtype.newbyteorder(">"))
+                elif arr.dtype.byteorder == ">":
+                    arr = arr.astype(arr.dtype.newbyteorder("<"))
             if op["op"] == "w":
                 if form == "defnext" and op["idx"] == w.get_next_available_sample():
                     ret = w.rf_write(arr)  # next_sample=None: "the next available sample after previous writes"
